@@ -10,6 +10,7 @@
 #include <nitro/lang/quaint_ptr.hpp>
 
 #include <cstring>
+#include <stdexcept>
 #include <map>
 #include <memory>
 #include <optional>
@@ -74,7 +75,13 @@ struct Payload
 {
     int id;
     unsigned char pad[PAD];
-    explicit Payload(int i) : id(i) { std::memset(pad, 0x40 + T, PAD); on_ctor(this, T); }
+    // fail: the constructor throws before the object exists (nothing registered, no destructor may ever run on it)
+    explicit Payload(int i, bool fail = false) : id(i)
+    {
+        if (fail) throw std::runtime_error("payload constructor fails");
+        std::memset(pad, 0x40 + T, PAD);
+        on_ctor(this, T);
+    }
     Payload(const Payload&) = delete;
     Payload& operator=(const Payload&) = delete;
     ~Payload() { on_dtor(this, T); }
@@ -86,8 +93,8 @@ using B = Payload<1, 48>;
 struct C : Payload<2, 300>
 {
     bool args_ok;
-    C(int i, std::unique_ptr<int> mo, const std::string& lv, std::string&& rv)
-    : Payload<2, 300>(i), args_ok(mo && *mo == i + 1 && lv == "lvalue-argument" && rv == "rvalue-argument-longer-than-sso")
+    C(int i, std::unique_ptr<int> mo, const std::string& lv, std::string&& rv, bool fail = false)
+    : Payload<2, 300>(i, fail), args_ok(mo && *mo == i + 1 && lv == "lvalue-argument" && rv == "rvalue-argument-longer-than-sso")
     {
     }
 };
@@ -128,17 +135,17 @@ static std::string state_obs(const std::vector<std::optional<QP>>& pool, const s
     return join(o, ",") + "|" + join(p, ",") + "|" + join(v, ",") + "|" + c + "|" + d;
 }
 
-static QP make(int t)
+static QP make(int t, bool fail = false)
 {
     int id = static_cast<int>(objs.size());
     switch (t)
     {
-    case 0: return nitro::lang::make_quaint<A>(id);
-    case 1: return nitro::lang::make_quaint<B>(id);
+    case 0: return nitro::lang::make_quaint<A>(id, fail);
+    case 1: return nitro::lang::make_quaint<B>(id, fail);
     default:
     {
         const std::string lv = "lvalue-argument";
-        return nitro::lang::make_quaint<C>(id, std::make_unique<int>(id + 1), lv, std::string("rvalue-argument-longer-than-sso"));
+        return nitro::lang::make_quaint<C>(id, std::make_unique<int>(id + 1), lv, std::string("rvalue-argument-longer-than-sso"), fail);
     }
     }
 }
@@ -206,6 +213,25 @@ static std::string run(int n, const std::string& opsw)
             }
             else if (f[0] == "dc") { std::size_t i = arg(1); if (i < pool.size() && !pool[i]) { ok = true; pool[i].emplace(); } }
             else if (f[0] == "vo") { if (!vec.empty()) { ok = true; vec.pop_back(); } }
+            else if (f[0] == "mx" || f[0] == "vx")
+            {
+                // make_quaint<T>(...) with a throwing T constructor, as the source of an assignment / emplace / push_back
+                const bool intovec = f[0] == "vx";
+                std::size_t i = intovec ? 0 : arg(1);
+                int t = static_cast<int>(arg(intovec ? 1 : 2));
+                if (i < pool.size() && t >= 0 && t < 3)
+                {
+                    try
+                    {
+                        if (intovec) vec.push_back(make(t, true));
+                        else if (pool[i]) *pool[i] = make(t, true);
+                        else pool[i].emplace(make(t, true));
+                        out += "nothrow|" + state_obs(pool, vec) + ";";
+                    }
+                    catch (const std::runtime_error&) { out += "throw|" + state_obs(pool, vec) + ";"; }
+                    continue;
+                }
+            }
             else if (f[0] == "ve") { std::size_t k = arg(1); if (k < vec.size()) { ok = true; vec.erase(vec.begin() + static_cast<std::ptrdiff_t>(k)); } }
             else return "BADCASE";
             out += (ok ? "ok|" : "skip|") + state_obs(pool, vec) + ";";
